@@ -50,6 +50,7 @@ type vfWReq struct {
 }
 type vfWConfig struct {
 	Args     []string  `json:"args"`
+	FwdPath  string    `json:"forward_path"`
 	Requests []vfWReq  `json:"requests"`
 	Prio     []struct {
 		N      int `json:"n"`      // captured priorities
@@ -133,7 +134,7 @@ func vfWRun(t *testing.T, c vfWConfig) vfWOut {
 	flag.CommandLine = flag.NewFlagSet("fingerproxy", flag.ContinueOnError)
 	PrometheusRegistry = prometheus.NewRegistry()
 	initFlags()
-	args := append([]string{"-cert-filename", crt, "-certkey-filename", key, "-forward-url", bs.URL}, c.Args...)
+	args := append([]string{"-cert-filename", crt, "-certkey-filename", key, "-forward-url", bs.URL + c.FwdPath}, c.Args...)
 	if err := flag.CommandLine.Parse(args); err != nil {
 		out.Err = err.Error()
 		return out
